@@ -365,6 +365,10 @@ def run(ctx, focus):
         meta.append((start, len(ops), spec, flags))
         for v in r['violations']:
             v['witness'] = {'spec': spec, 'flags': flags, 'cut': v.get('cut')}
+            if focus == 'C02' and v.get('values_differ'):
+                # C02 speaks of the language of the *ruleset*: a variable loaded with other values than its file holds (a value twice,
+                # a value missing) changes the multiset of guesses whatever the queue does afterwards
+                v = dict(v, property='C02', kind='loaded-values-differ-from-file')
             violations.append(v)
         if len(samples) < 4 and st['parent_tie']:
             samples.append({'grammar': spec['grammar'], 'flags': flags, 'stats': st})
